@@ -46,7 +46,7 @@ static idns_t ids[NS_MAX];
 static const void *qtab[MAXW];
 
 /* ---------- pct ---------- */
-static long prio[MAXW]; static long lowprio; static long *chg; static int nchg; static long stepno; static long stall_until[MAXW];
+static long prio[MAXW]; static long lowprio; static long *chg; static int nchg; static long stepno; static long stall_until[MAXW]; static int just_loaded[MAXW];
 
 /* ---------- virtual clock ---------- */
 static long vsec = 1000, vnsec = 0;
@@ -125,6 +125,9 @@ static void log_ev(const char *name, int n, va_list ap){
   for (i = 0; i < e->n; i++) e->a[i] = va_arg(ap, long);
   nev++; nonprogress = 0; activity++;
   if (name[0] == 'S' && !strcmp(name, "SchedRun")) idle[me] = 0;
+  /* did this worker just read shared state it is going to act upon?  (the delay strategy prefers to freeze it there) */
+  if (me >= 0 && me < MAXW){ size_t ln = strlen(name);
+    just_loaded[me] = (ln >= 2 && !strcmp(name + ln - 2, "Ld")) || (ln >= 3 && !strcmp(name + ln - 3, "Chk")) || (ln >= 4 && !strcmp(name + ln - 4, "Next")); }
   /* a run that never ends but keeps producing events (a retry loop that can never succeed) */
   if (armed && started && O.max_events > 0 && nev > O.max_events){ started = 0; verdict("HANG", 5); }
 }
@@ -261,7 +264,8 @@ static int pick(int spin){
     int cand[MAXW], nc = 0;
     stepno++;
     if (nonprogress > 3L * NW) for (i = 0; i < NW; i++) stall_until[i] = 0;      /* the others need the frozen one */
-    if (!spin && stall_until[me] <= stepno && rnd() % 24 == 0) stall_until[me] = stepno + 600;
+    if (!spin && stall_until[me] <= stepno && rnd() % (just_loaded[me] ? 3 : 24) == 0) stall_until[me] = stepno + 600;
+    just_loaded[me] = 0;
     for (i = 0; i < NW; i++) if (stall_until[i] <= stepno && !(spin && i == me)) cand[nc++] = i;
     if (nc == 0){ for (i = 0; i < NW; i++) stall_until[i] = 0; return spin ? (me + 1) % NW : me; }
     if (!spin && stall_until[me] <= stepno && (rnd() & 1)) return me;
